@@ -979,7 +979,58 @@ Proof.
   exists ev, bufblk', used. split; [exact X|]. split; [reflexivity|]. split; assumption.
 Qed.
 
+(* the two theorems with the tie to the model spelled out in one statement (what Properties_C01.v / C03.v quote) *)
+Theorem tr_write_fully_full ext ks kl fd b o (blk : block) (p : bytes) s lg m d fuel :
+  kernel_oracle ext ks kl -> world_at ks kl m s lg -> nth_error m b = Some blk -> b <> ks -> b <> kl ->
+  0 <= o -> bytes_in blk (Z.to_nat o) p -> bytes_lt256 p -> Z.of_nat (length p) <= 4611686018427387904 ->
+  (length s + 2 <= fuel)%nat ->
+  let '(ev, ok, r) := wf_run fd p s in
+  callx ext cprog fuel (S (S d)) F_lbuf_write_fully [VInt fd; VPtr b o; VInt (Z.of_nat (length p))] m
+  = Ok (VInt (if ok then Z.of_nat (length p) else -1), set_world ks kl m r (lg ++ ev)) /\
+  IoDefs.write_fully p s = (reached ev, ok, r) /\
+  exists used, s = used ++ r /\ (ok = false <-> In IoDefs.OErr used).
+Proof.
+  intros (K1 & K2 & K3) Hw Hb N1 N2 Ho Hp H256 Hsz Hf.
+  pose proof (tr_write_fully ext ks kl K1 K2 K3 fd b o blk p s lg m d fuel Hw Hb N1 N2 Ho Hp H256 Hsz Hf) as X.
+  pose proof (wf_run_model fd p s) as Y. pose proof (wf_run_ok_iff fd p s) as Z.
+  destruct (wf_run fd p s) as [[ev ok] r]. split; [exact X|]. split; [exact Y|exact Z].
+Qed.
+
 (* ------------------------------------------------------------------ helpers for examples: a small memory *)
 (* the log block of a memory, and a struct lbuf block whose ln field points to block bln *)
 Definition log_of (m : mem) (kl : nat) : block := match nth_error m kl with Some b => b | None => [] end.
 Definition lbuf_block (bln : nat) : block := repeat (VInt 0) 64 ++ [VPtr bln 0] ++ repeat (VInt 0) 10.
+
+(* a buffer of three lines "ab\n", "c\n" and a line of 4096 bytes: block 0 the struct lbuf, block 1 the line table,
+   blocks 2..4 the lines, block 5 the schedule, block 6 the log *)
+Definition ex_long : bytes := repeat 120%N 4095 ++ [10%N].
+Definition ex_lines : list bytes := [[97; 98; 10]; [99; 10]; ex_long]%N.
+Definition ex_mem (s : sched) : mem :=
+  [lbuf_block 1; [VPtr 2 0; VPtr 3 0; VPtr 4 0]; cstr_block (zb [97; 98; 10]%N); cstr_block (zb [99; 10]%N);
+   cstr_block (zb ex_long); enc_sch s; []].
+Lemma ex_long_nonul : nonul ex_long.
+Proof.
+  unfold ex_long. apply Forall_app. split; [|constructor; [split; reflexivity|constructor]].
+  apply Forall_forall. intros x Hx. apply repeat_spec in Hx. subst x. split; reflexivity.
+Qed.
+Lemma ex_lines_at s : lines_at 5 6 (ex_mem s) 0 1 [2; 3; 4]%nat ex_lines.
+Proof.
+  constructor.
+  - exists (lbuf_block 1). split; [reflexivity|vm_compute; reflexivity].
+  - exists [VPtr 2 0; VPtr 3 0; VPtr 4 0]. split; [reflexivity|]. intros i Hi. change (length ex_lines) with 3%nat in Hi.
+    destruct i as [|[|[|i]]]; [reflexivity|reflexivity|reflexivity|lia].
+  - reflexivity.
+  - intros i Hi. change (length ex_lines) with 3%nat in Hi.
+    destruct i as [|[|[|i]]]; [reflexivity|reflexivity|reflexivity|lia].
+  - constructor; [repeat constructor|constructor; [repeat constructor|constructor; [exact ex_long_nonul|constructor]]].
+  - split; intros H; cbn in H; intuition discriminate.
+Qed.
+(* lbuf_wr(lb, 7, 0, 3) run on that buffer under schedule s: the value returned and the log block afterwards *)
+Definition ex_wr (s : sched) : option (val * block) :=
+  match callx (sys 5 6) cprog 10 4 F_lbuf_wr [VPtr 0 0; VInt 7; VInt 0; VInt 3] (ex_mem s) with
+  | Ok (v, m') => Some (v, log_of m' 6)
+  | Err _ => None
+  end.
+(* write_fully(5, block 0, n) run on a memory whose block 0 is blk, under schedule s *)
+Definition ex_wf (blk : block) (n : Z) (s : sched) : res (val * mem) :=
+  callx (sys 1 2) cprog 10 3 F_lbuf_write_fully [VInt 5; VPtr 0 0; VInt n] [blk; enc_sch s; []].
